@@ -1447,3 +1447,96 @@ def C12(ctx):
     if phase != 'guard' and len(ctx.sut) > fi + 1:
         nontrivial.append((ctx.spec['id'], ids_before(ctx, fi), cases.op_str(ctx.case[fi]).split(';')[0].rsplit(':', 1)[0], k, phase))
     return dict(nontrivial=nontrivial, classes=classes)
+
+
+
+# ---------------------------------------------------------------------------------------------- C13
+def strip_inactive_ids(ctx, toks, drop_completion_guards=True):
+    """ids{} tokens restricted to active machines (what an inactive submachine remembers is not part of the behaviour)"""
+    st = ctx.static
+    out = []
+    for t in toks:
+        if t.startswith('ids{'):
+            ids = st.parse_ids(t)
+            act = st.active_machines(ids)
+            out.append('ids{' + ';'.join('%s=%s' % (m, ','.join(ids[m])) for m in act if m in ids) + ';}')
+        elif t[0] == 'g' and t.endswith('/none') and drop_completion_guards:
+            # documented difference: back re-evaluates the (frozen) guards of completion rows after every handled event,
+            # backmp11 evaluates them once per entry; how often they are consulted is not common behaviour (C10 checks it)
+            continue
+        else:
+            out.append(t)
+    return out
+
+
+def C13(ctx):
+    """Back-end / compile-policy / dispatch-strategy / queue-container equivalence: the same case driven into every
+    configuration that compiles the machine gives identical normalised traces (behaviours with order and arguments,
+    active configuration by state name after every operation, handled/zero status).  Cases on which the two documented
+    model dialects disagree lie outside the common feature subset and are discarded (counted)."""
+    from . import build as B
+    st = ctx.static
+    classes = Counter()
+    nontrivial = []
+    runs = ctx.runs
+    cfgs = sorted(runs)
+    # operational definition of the common subset: both documented dialects predict the same trace
+    mb, _ = model_ops(ctx.spec, ctx.case, 'back')
+    mm, _ = model_ops(ctx.spec, ctx.case, 'mp11')
+    if [strip_inactive_ids(ctx, x) for x in mb] != [strip_inactive_ids(ctx, x) for x in mm]:
+        classes['outside_common_subset'] += 1
+        return dict(nontrivial=[], classes=classes)
+    norm = {c: [strip_inactive_ids(ctx, x) for x in runs[c]] for c in cfgs}
+    ref = [strip_inactive_ids(ctx, x) for x in mb]
+    base = cfgs[0]
+    for i in range(len(ctx.case)):
+        rows = {c: norm[c][i] if i < len(norm[c]) else None for c in cfgs}
+        vals = list(rows.values())
+        if any(v != vals[0] for v in vals):
+            # attribute: configurations that deviate from the model (referee); if none matches the model, from the majority
+            dev = [c for c in cfgs if rows[c] != ref[i]]
+            if len(dev) == len(cfgs):
+                cnt = Counter(tuple(v) if v is not None else None for v in vals)
+                maj = cnt.most_common(1)[0][0]
+                dev = [c for c in cfgs if (tuple(rows[c]) if rows[c] is not None else None) != maj]
+            ok = [c for c in cfgs if c not in dev]
+            a = rows[dev[0]]
+            b = rows[ok[0]] if ok else ref[i]
+            k = 0
+            while a is not None and b is not None and k < min(len(a), len(b)) and a[k] == b[k]:
+                k += 1
+            fail('C13', 'configurations %s behave differently from %s in this operation (first difference at token %d: %s vs %s)'
+                 % ([B.CONFIGS[c] for c in dev], [B.CONFIGS[c] for c in ok] or 'the model', k,
+                    a[k] if a is not None and k < len(a) else None, b[k] if b is not None and k < len(b) else None), ctx, i,
+                 deviating=[B.CONFIGS[c] for c in dev], deviating_trace=' '.join(a or []), other_trace=' '.join(b or []))
+    classes['cases_compared'] += 1
+    classes['configs_%d' % len(cfgs)] += 1
+    # non-triviality
+    feats = set()
+    for i, toks in enumerate(norm[base]):
+        regs = set()
+        for t in toks:
+            p = parse(t)
+            if p and p[0] in ('g', 'a', 'en', 'ex'):
+                o = tok_owner(ctx, p)
+                if o:
+                    if st.level.get(o[0], 1) >= 2:
+                        feats.add('hierarchy')
+                    rr = root_region_of(ctx, o)
+                    if rr is not None:
+                        regs.add(rr)
+                if p[3] == 'none':
+                    feats.add('completion')
+            if t.startswith('!sub'):
+                feats.add('nested_submission')
+            if t == '!throw':
+                feats.add('throw')
+        if len(regs) >= 2:
+            feats.add('regions')
+        if ctx.case[i]['op'] in ('Q', 'X'):
+            feats.add('queue')
+    for f in feats:
+        classes['feature_' + f] += 1
+    if feats and len(cfgs) >= 3:
+        nontrivial.append((ctx.spec['id'], cases.to_line(ctx.case)))
+    return dict(nontrivial=nontrivial, classes=classes)
